@@ -143,6 +143,18 @@ def run(ctx):
                                 "arguments in simplify, constant-array layout)", method_loc(repo, cls, s.ast))
         ctx.floor(rs, 2)
 
+    if ctx.want("R4"):
+        rs = ctx.rule("R4", "a rejected script leaves no trace: a later script is read as in a fresh environment (same parser and new parser)")
+        from . import text_deep as td
+        for name, how, kind, detail in td.failure_results(repo, ctx.tier):
+            if kind == "valid":
+                rs.ok({"rejected_script": name, "then": how, "result": detail})
+            elif kind == "invalid":
+                ctx.finding(rs, "parser|%s|%s" % (name, how), "%s (%s): %s" % (name, how, detail), "pysmt/smtlib/parser/parser.py")
+            else:
+                rs.unrec("%s (%s): %s" % (name, how, detail[:160]))
+        ctx.floor(rs, 16)
+
     if ctx.want("R3"):
         rs = ctx.rule("R3", "parser entry points reset or unwind their bindings")
         for nm in ("get_script", "parse_model", "get_assignment_list"):
